@@ -20,6 +20,11 @@ Hand model tied by exact correspondence: `genOps`, `levelise`, `memMap` (Model/S
 Model/Cycle.lean (`Cycle.tabsOf`, `sToC`, `cToS`, `ppoToPpi`, `cycle1`, `cycleK`; array form `cycleKA` run by the driver).
 Memory level for ALL circuits: `logic_sim_end_to_end_all_circuits` (the map certificate is the theorem `C08.simops_map_accepted`).
 Specification: `formula`, `specPrimName`, `evalLine` (Model/Prim.lean, Model/Net.lean).
+ARITY DOMAIN (audit finding 1, known finding D33): specification (`lineEq`, `evalAll`) and simulator read input pins 0..3 of a gate; a
+gate with more connected inputs (bench `z = AND(a,b,c,d,e)`) is simulated as the 4-input primitive of its first four pins.  The
+theorems hold for every netlist; they say "the netlist's Boolean function" only inside `Net.arityOKB` (explicit in
+`logic_sim_end_to_end_all_circuits`); the harness evaluates `arityOKB` per case and its wide-gate oracle (n-ary ground truth in
+Python) reports D33.
 
 What is THEOREM for the sequential statement ("`cycle(k)` iterates the next-state function k times, primary-input rows of
 `s[0]` untouched"), for every well-formed netlist, every topological order, every value domain / op semantics (so also with
@@ -197,10 +202,14 @@ example : demoMap.ops = genOps Gen.kindPrefixes demoMap.net [0, 2, 1, 3, 4, 5, 6
     with or without `c_reuse`; equal to the real tables by exact correspondence) — the hypothesis "the map certificate
     accepts" is discharged by `C08.simops_map_accepted` (`simopsMap_accepted`). Remaining hypotheses are the domain
     predicates `Net.wfB`, `orderOKB`, `readsDrivenB` (every read or captured line is written by a row: known cell kinds),
-    evaluated by the driver on the real circuit and order. -/
+    evaluated by the driver on the real circuit and order — and `Net.arityOKB` (audit finding 1, known finding D33: at most four
+    input pin slots per gate; not used by the proof): the op rows `genOps` generates read pins 0..3 of a node, so only inside this
+    domain are "the netlist's gate equations" (`hval`) the equations of the gates as drawn; a gate with more input pins is simulated
+    as the 4-input primitive of its first four pins (`C11.wide_gate_not_simulated`; harness/c01.py oracle class `wide-gate`). -/
 theorem logic_sim_end_to_end_all_circuits {α} [Inhabited α] (tbl : List PrefixRow) (net : Net) (order : List Nat)
     (capsIn : Nat → Nat) (capsMin : Nat) (reuse : Bool)
     (hwf : net.wfB = true) (ho : orderOKB net order = true) (hr : readsDrivenB tbl net order = true) (hpos : 0 < capsMin)
+    (_har : net.arityOKB = true)
     (f : Nat → List α → α) (m0 : Int → α) (env0 : Nat → α)
     (h0 : ∀ x ∈ (simopsMap tbl net order false capsIn capsMin reuse).tracked,
       (∀ o ∈ (simopsMap tbl net order false capsIn capsMin reuse).ops, o.out ≠ x) →
@@ -215,6 +224,7 @@ theorem logic_sim_end_to_end_all_circuits {α} [Inhabited α] (tbl : List Prefix
     f m0 env0 h0 val hval
 
 /-- non-vacuity of (4e): `demoNet` satisfies the hypotheses and the model's tables are the real tables `demoMap` -/
+example : demoNet.arityOKB = true := by decide +kernel
 example : readsDrivenB Gen.kindPrefixes demoNet [0, 2, 1, 3, 4, 5, 6] = true ∧
     (simopsMap Gen.kindPrefixes demoNet [0, 2, 1, 3, 4, 5, 6] false (fun _ => 1) 1 true).locs = demoMap.locs ∧
     (simopsMap Gen.kindPrefixes demoNet [0, 2, 1, 3, 4, 5, 6] false (fun _ => 1) 1 true).cLen = demoMap.cLen := by
